@@ -883,39 +883,42 @@ impl<'r> Gen<'r> {
                     body.insert(pos.min(body.len()), Stmt::If(c, vec![s], vec![]));
                 }
                 self.scopes.pop();
-                // loop-carried values that shift / swap / rotate between mutable variables of the
-                // enclosing scopes (`t = a; a = b; b = t;`): copies whose source is redefined on
-                // the back edge
-                if self.rng.gen_bool(0.45) {
-                    let cands: Vec<VarInfo> = self.vars().into_iter().filter(|v| v.mutable && v.ty.is_scalar() && !self.frozen.contains(&v.name)).collect();
-                    let mut by_ty: Vec<(Ty, Vec<String>)> = vec![];
-                    for v in cands {
-                        match by_ty.iter_mut().find(|(t, _)| *t == v.ty) {
-                            Some((_, ns)) => ns.push(v.name),
-                            None => by_ty.push((v.ty, vec![v.name])),
-                        }
+                // loop-carried values that shift / swap / rotate (`t = a; a = b; b = t;`): copies
+                // whose source is redefined on the back edge. The variables are declared right
+                // before the loop and logged after it, so the rotation is always observable.
+                let mut rot_vars: Vec<(String, Ty)> = vec![];
+                if self.rng.gen_bool(0.5) {
+                    let t = crate::common::choose(self.rng, &[Ty::U64, Ty::U64, Ty::U8, Ty::U16, Ty::U32, Ty::Bool, Ty::U256, Ty::B256]).clone();
+                    let k = self.rng.gen_range(2..=3usize);
+                    let mut ns = vec![];
+                    for _ in 0..k {
+                        let name = self.fresh("r");
+                        let init = self.let_init(&t, 1);
+                        out.push(Stmt::Let { name: name.clone(), mutable: true, ty: t.clone(), e: init });
+                        ns.push(name);
                     }
-                    by_ty.retain(|(_, ns)| ns.len() >= 2);
-                    if !by_ty.is_empty() {
-                        let (t, ns) = by_ty[self.rng.gen_range(0..by_ty.len())].clone();
-                        let k = self.rng.gen_range(2..=ns.len().min(3));
-                        let tmp = self.fresh("t");
-                        let var = |n: &str| e(t.clone(), EK::Var(n.to_string()));
-                        let lv = |n: &str| LValue { var: n.to_string(), path: vec![] };
-                        let mut rot = vec![Stmt::Let { name: tmp.clone(), mutable: false, ty: t.clone(), e: var(&ns[0]) }];
-                        for j in 0..k - 1 {
-                            rot.push(Stmt::Assign(lv(&ns[j]), var(&ns[j + 1])));
-                        }
-                        rot.push(Stmt::Assign(lv(&ns[k - 1]), var(&tmp)));
-                        let pos = self.rng.gen_range(0..=body.len());
-                        for (o, st) in rot.into_iter().enumerate() {
-                            body.insert((pos + o).min(body.len()), st);
-                        }
+                    let tmp = self.fresh("t");
+                    let var = |n: &str| e(t.clone(), EK::Var(n.to_string()));
+                    let lv = |n: &str| LValue { var: n.to_string(), path: vec![] };
+                    let mut rot = vec![Stmt::Let { name: tmp.clone(), mutable: false, ty: t.clone(), e: var(&ns[0]) }];
+                    for j in 0..k - 1 {
+                        rot.push(Stmt::Assign(lv(&ns[j]), var(&ns[j + 1])));
                     }
+                    rot.push(Stmt::Assign(lv(&ns[k - 1]), var(&tmp)));
+                    let pos = self.rng.gen_range(0..=body.len());
+                    for (o, st) in rot.into_iter().enumerate() {
+                        body.insert((pos + o).min(body.len()), st);
+                    }
+                    rot_vars = ns.into_iter().map(|n| (n, t.clone())).collect();
                 }
                 self.loop_depth -= 1;
-                let style = if self.rng.gen_bool(0.4) { 1 } else { 0 };
+                let style = if self.rng.gen_bool(0.5) { 1 } else { 0 };
                 out.push(Stmt::While { counter: counter.clone(), limit, body, style });
+                for (n, t) in rot_vars {
+                    out.push(Stmt::Log(e(t.clone(), EK::Var(n.clone()))));
+                    // visible (and frozen: not reassigned by later random statements is not needed) afterwards
+                    self.declare(&n, &t, true);
+                }
                 // the counter stays visible after the loop (declared by the printer in the enclosing scope)
                 self.declare(&counter, &Ty::U64, false);
             }
